@@ -5,8 +5,9 @@
    The model mirrors the Python line by line (order of effects, order of outputs); numpy
    primitives (np.sort(axis=1), np.unique(axis=0, return_counts=True), np.isin(...).all(axis=1),
    Python set operations) are modelled by their documented list/set meaning.
-   The geometric seed test is_facet_inwards (ray casting in floating point) is NOT modelled: it
-   enters get_inwards_mask as a stream of oracle bits, one per call, in call order. *)
+   The geometric seed test is_facet_inwards (ray casting in floating point) is NOT modelled.  Since every
+   call is is_facet_inwards(msh[seed], msh) with the WHOLE mesh as second argument, its answer is a function
+   of the seed face alone (for a fixed mesh): it enters get_inwards_mask as `orc : face -> bool`. *)
 From Coq Require Import NArith List Bool Arith.
 Import ListNotations.
 
@@ -167,43 +168,42 @@ Record pstate := mkP {
   p_free : list edge;        (* free_edges *)
   p_mask : list bool;        (* mask *)
   p_any : bool;              (* any_connected *)
-  p_oracle : list bool;      (* results of the is_facet_inwards calls still to come *)
-  p_calls : list (nat * nat) (* (seed face, number of remaining faces) of each call so far, newest first *)
+  p_calls : list (nat * nat) (* (seed face, number of faces the seed test is run against = whole mesh) of each
+                                call so far, newest first *)
 }.
 
 (* one iteration of `while indices:` *)
-Definition pstep (tris : list face) (s : pstate) : pstate :=
+Definition pstep (tris : list face) (orc : face -> bool) (s : pstate) : pstate :=
   let s1 :=
     if p_any s then s
     else mkP (p_indices s) []
-             (set_all (p_indices s) (hd false (p_oracle s)) (p_mask s))
-             (p_any s) (tl (p_oracle s))
-             ((hd O (p_indices s), length (p_indices s)) :: p_calls s) in
+             (set_all (p_indices s) (orc (nth (hd O (p_indices s)) tris dface)) (p_mask s))
+             (p_any s)
+             ((hd O (p_indices s), length tris) :: p_calls s) in
   match find_tri tris (p_free s1) (p_indices s1) with
   | Some (i, fl, es) =>
       mkP (remove_first i (p_indices s1)) (exor (p_free s1) es)
           (if fl then upd i negb (p_mask s1) else p_mask s1)
-          true (p_oracle s1) (p_calls s1)
-  | None => mkP (p_indices s1) (p_free s1) (p_mask s1) false (p_oracle s1) (p_calls s1)
+          true (p_calls s1)
+  | None => mkP (p_indices s1) (p_free s1) (p_mask s1) false (p_calls s1)
   end.
 
-Fixpoint ploop (fuel : nat) (tris : list face) (s : pstate) : pstate :=
+Fixpoint ploop (fuel : nat) (tris : list face) (orc : face -> bool) (s : pstate) : pstate :=
   match fuel with
   | O => s
   | S k => match p_indices s with
            | [] => s
-           | _ => ploop k tris (pstep tris s)
+           | _ => ploop k tris orc (pstep tris orc s)
            end
   end.
 
-Definition pinit (n : nat) (oracle : list bool) : pstate :=
-  mkP (seq 0 n) [] (repeat false n) false oracle [].
+Definition pinit (n : nat) : pstate := mkP (seq 0 n) [] (repeat false n) false [].
 
-Definition pfinal (tris : list face) (oracle : list bool) : pstate :=
-  ploop (2 * length tris + 2) tris (pinit (length tris) oracle).
+Definition pfinal (tris : list face) (orc : face -> bool) : pstate :=
+  ploop (2 * length tris + 2) tris orc (pinit (length tris)).
 
-Definition get_inwards_mask (tris : list face) (oracle : list bool) : list bool :=
-  p_mask (pfinal tris oracle).
+Definition get_inwards_mask (tris : list face) (orc : face -> bool) : list bool :=
+  p_mask (pfinal tris orc).
 
 (* new_faces[inwards_mask] = new_faces[inwards_mask][:, [0, 2, 1]] *)
 Definition flip_face (f : face) : face := (f0 f, f2 f, f1 f).
@@ -212,8 +212,8 @@ Fixpoint apply_mask (fs : list face) (m : list bool) : list face :=
   | f :: fr, b :: mr => (if b then flip_face f else f) :: apply_mask fr mr
   | _, _ => fs
   end.
-Definition fix_trimesh_orientation (fs : list face) (oracle : list bool) : list face :=
-  apply_mask fs (get_inwards_mask fs oracle).
+Definition fix_trimesh_orientation (fs : list face) (orc : face -> bool) : list face :=
+  apply_mask fs (get_inwards_mask fs orc).
 
 (* the class level: status_open / status_disconnected as set by check_open / check_disconnected *)
 Definition status_open (fs : list face) : bool := negb (Nat.eqb (length (get_open_edges fs)) 0).
